@@ -24,7 +24,13 @@ pub fn load_outcome(fmt: &str, bytes: &[u8]) -> String {
     });
     match r {
         Some(Ok(())) => "OK".into(),
-        Some(Err(_)) => "ERR".into(),
+        Some(Err(e)) => {
+            if std::env::var("KVH_VERBOSE").is_ok() {
+                format!("ERR {}", e.replace('\n', " "))
+            } else {
+                "ERR".into()
+            }
+        }
         None => "PANIC".into(),
     }
 }
@@ -40,10 +46,46 @@ pub fn child_main() {
         };
         let mut it = line.split(' ');
         let fmt = it.next().unwrap_or("");
-        let bytes = unhex(it.next().unwrap_or("-"));
+        let payload = it.next().unwrap_or("-");
+        let bytes = payload_bytes(payload);
         let a = load_outcome(fmt, &bytes);
         writeln!(out, "{}", a).unwrap();
         out.flush().unwrap();
+    }
+}
+
+/// Payload of a load request: hex bytes, or `file:<path>:<seed>:<k>` = the k-th deterministic mutation
+/// (k = 0: unmodified) of a file on disk.
+pub fn payload_bytes(payload: &str) -> Vec<u8> {
+    if let Some(rest) = payload.strip_prefix("file:") {
+        let parts: Vec<&str> = rest.rsplitn(3, ':').collect();
+        if parts.len() == 3 {
+            let (k, seed, path) = (parts[0].parse::<u64>().unwrap_or(0), parts[1].parse::<u64>().unwrap_or(0), parts[2]);
+            let data = std::fs::read(path).unwrap_or_default();
+            return file_mutation(&data, seed, k);
+        }
+        Vec::new()
+    } else {
+        unhex(payload)
+    }
+}
+
+pub fn file_mutation(data: &[u8], seed: u64, k: u64) -> Vec<u8> {
+    if k == 0 || data.is_empty() {
+        return data.to_vec();
+    }
+    let mut rng = Rng::new(seed.wrapping_mul(0x9E37_79B9).wrapping_add(k));
+    if k % 3 == 0 {
+        // prefix truncation classes: inside the header, early, middle, near the end
+        let cut = match k % 12 {
+            0 => rng.below(16.min(data.len())),
+            3 => rng.below(data.len() / 10 + 1),
+            6 => data.len() / 2 + rng.below(64).min(data.len() / 2),
+            _ => data.len() - 1 - rng.below(32.min(data.len() - 1)),
+        };
+        data[..cut].to_vec()
+    } else {
+        mutate(&mut rng, data)
     }
 }
 
@@ -69,11 +111,14 @@ impl Isolated {
     }
     /// Outcome of loading `bytes` as `fmt` in the child; `CRASH` if the child died or hung.
     pub fn load(&mut self, fmt: &str, bytes: &[u8]) -> String {
+        self.load_payload(fmt, &hex(bytes))
+    }
+    pub fn load_payload(&mut self, fmt: &str, payload: &str) -> String {
         if self.child.is_none() {
             self.spawn();
         }
         let (c, out) = self.child.as_mut().unwrap();
-        let req = format!("{} {}\n", fmt, hex(bytes));
+        let req = format!("{} {}\n", fmt, payload);
         let ok = c.stdin.as_mut().map(|s| s.write_all(req.as_bytes()).and_then(|_| s.flush()).is_ok()).unwrap_or(false);
         let mut line = String::new();
         let got = if ok {
@@ -223,32 +268,53 @@ fn sp_model(rng: &mut Rng, variant: usize) -> Vec<u8> {
 }
 
 fn hf_json(rng: &mut Rng, variant: usize) -> Vec<u8> {
-    let model = match variant % 4 {
-        0 => r#"{"type":"BPE","vocab":{"a":0,"b":1,"ab":2,"<0x41>":3,"<0xZZ>":4,"Ġ":5},"merges":["a b"],"byte_fallback":true,"unk_token":"<unk>"}"#.to_string(),
-        1 => r###"{"type":"WordPiece","vocab":{"[UNK]":0,"a":1,"##b":2},"unk_token":"[UNK]","continuing_subword_prefix":"##","max_input_chars_per_word":100}"###.to_string(),
-        2 => r#"{"type":"Unigram","unk_id":0,"vocab":[["<unk>",0.0],["a",-1.0],["b",-1e39],["<0x41>",-2.0]],"byte_fallback":true}"#.to_string(),
-        _ => format!(r#"{{"type":"BPE","vocab":{{"a":{},"b":1}},"merges":[]}}"#, *rng.pick(&[0u64, 4294967295, 4294967296, 7])),
+    // mostly valid files: each gets at most two boundary tweaks (`odd` picks which)
+    let odd = |rng: &mut Rng| rng.chance(1, 6);
+    let big_id = if odd(rng) { *rng.pick(&["4294967295", "4294967294", "4294967296"]) } else { "6" };
+    let model = match variant % 3 {
+        0 => format!(
+            r#"{{"type":"BPE","vocab":{{"<unk>":0,"a":1,"b":2,"ab":3,"<0x41>":4,"{}":5,"Ġ":{}}},"merges":["a b"],"byte_fallback":{},"unk_token":"<unk>"}}"#,
+            if odd(rng) { *rng.pick(&["<0xZZ>", "<0x4", "<0xÿ>", "<0x00>"]) } else { "<0x42>" },
+            big_id,
+            if variant % 2 == 0 { "true" } else { "false" }
+        ),
+        1 => r###"{"type":"WordPiece","vocab":{"[UNK]":0,"a":1,"##b":2,"##":3},"unk_token":"[UNK]","continuing_subword_prefix":"##","max_input_chars_per_word":100}"###.to_string(),
+        _ => format!(
+            r#"{{"type":"Unigram","unk_id":{},"vocab":[["<unk>",0.0],["a",-1.0],["b",{}],["<0x41>",-2.0],["<0x{}>",-3.0]],"byte_fallback":{}}}"#,
+            if odd(rng) { *rng.pick(&["7", "null"]) } else { "0" },
+            if odd(rng) { "-1e39" } else { "-1.5" },
+            if odd(rng) { "Zz" } else { "42" },
+            if variant % 2 == 0 { "true" } else { "false" }
+        ),
     };
-    let added = match variant % 5 {
-        0 => r#"[{"id":0,"content":"<x>","single_word":false,"lstrip":false,"rstrip":false,"normalized":false,"special":true}]"#.to_string(),
-        1 => r#"[{"id":4294967295,"content":"<y>","single_word":false,"lstrip":false,"rstrip":false,"normalized":true,"special":true},{"id":4294967295,"content":"<z>","single_word":false,"lstrip":false,"rstrip":false,"normalized":false,"special":false}]"#.to_string(),
-        2 => "[]".to_string(),
-        3 => r#"[{"id":1,"content":"","single_word":false,"lstrip":false,"rstrip":false,"normalized":false,"special":true}]"#.to_string(),
-        _ => "null".to_string(),
-    };
+    let unk = if variant % 3 == 1 { "[UNK]" } else { "<unk>" };
+    let mut added = format!(r#"[{{"id":0,"content":"{}","single_word":false,"lstrip":false,"rstrip":false,"normalized":false,"special":true}}"#, unk);
+    if rng.chance(1, 2) {
+        // an added token whose id collides with a different vocabulary token, possibly at the top of the id space
+        added.push_str(&format!(
+            r#",{{"id":{},"content":"<y>","single_word":false,"lstrip":false,"rstrip":false,"normalized":{},"special":{}}}"#,
+            if odd(rng) { big_id } else { "1" },
+            rng.chance(1, 2),
+            rng.chance(1, 2)
+        ));
+    }
+    if odd(rng) {
+        added.push_str(r#",{"id":9,"content":"","single_word":false,"lstrip":false,"rstrip":false,"normalized":false,"special":true}"#);
+    }
+    added.push(']');
     let pre = match variant % 6 {
-        0 => r#"{"type":"ByteLevel","add_prefix_space":false,"trim_offsets":true,"use_regex":true}"#,
-        1 => r#"{"type":"Split","pattern":{"Regex":"(("},"behavior":"Isolated","invert":false}"#,
-        2 => r#"{"type":"Sequence","pretokenizers":[{"type":"Digits","individual_digits":true},{"type":"Metaspace","replacement":"▁","prepend_scheme":"always","split":true}]}"#,
-        3 => r#"{"type":"Split","pattern":{"String":""},"behavior":"MergedWithNext","invert":true}"#,
-        4 => "null",
-        _ => r#"{"type":"Whitespace"}"#,
+        0 => r#"{"type":"ByteLevel","add_prefix_space":false,"trim_offsets":true,"use_regex":true}"#.to_string(),
+        1 => format!(r#"{{"type":"Split","pattern":{{"Regex":"{}"}},"behavior":"Isolated","invert":false}}"#, if odd(rng) { "((" } else { "\\s+" }),
+        2 => r#"{"type":"Sequence","pretokenizers":[{"type":"Digits","individual_digits":true},{"type":"Metaspace","replacement":"▁","prepend_scheme":"always","split":true}]}"#.to_string(),
+        3 => format!(r#"{{"type":"Split","pattern":{{"String":"{}"}},"behavior":"MergedWithNext","invert":true}}"#, if odd(rng) { "" } else { " " }),
+        4 => "null".to_string(),
+        _ => r#"{"type":"Whitespace"}"#.to_string(),
     };
     let norm = match variant % 4 {
-        0 => r#"{"type":"Precompiled","precompiled_charsmap":"AAAAAA=="}"#,
-        1 => r#"{"type":"Sequence","normalizers":[{"type":"NFKC"},{"type":"Replace","pattern":{"Regex":"["},"content":"x"}]}"#,
-        2 => "null",
-        _ => r#"{"type":"Precompiled","precompiled_charsmap":"!!!"}"#,
+        0 => format!(r#"{{"type":"Precompiled","precompiled_charsmap":"{}"}}"#, if odd(rng) { *rng.pick(&["AAAAAA==", "AQAAAA==", "!!!", ""]) } else { "CAAAAAAAAAAAAAAAWAA=" }),
+        1 => format!(r#"{{"type":"Sequence","normalizers":[{{"type":"NFKC"}},{{"type":"Replace","pattern":{{"Regex":"{}"}},"content":"x"}}]}}"#, if odd(rng) { "[" } else { "a+" }),
+        2 => "null".to_string(),
+        _ => r#"{"type":"BertNormalizer","clean_text":true,"handle_chinese_chars":true,"strip_accents":null,"lowercase":true}"#.to_string(),
     };
     format!(
         r#"{{"version":"1.0","truncation":{},"padding":null,"added_tokens":{},"normalizer":{},"pre_tokenizer":{},"post_processor":null,"decoder":{},"model":{}}}"#,
@@ -263,16 +329,27 @@ fn hf_json(rng: &mut Rng, variant: usize) -> Vec<u8> {
 }
 
 fn tekken_json(rng: &mut Rng, variant: usize) -> Vec<u8> {
-    let vs = *rng.pick(&[0usize, 1, 13, 14, 15, 100, 4294967295, 4294967296]);
-    let ns = *rng.pick(&[0usize, 1, 14, 20, 4294967295]);
+    let odd = |rng: &mut Rng| rng.chance(1, 6);
+    let nspecial = if odd(rng) { *rng.pick(&[0usize, 1, 13, 15, 4294967295]) } else { 14 };
+    let vs = if odd(rng) { *rng.pick(&[0usize, 1, 13, 14, 100, 4294967295, 4294967296]) } else { 14 + rng.range(1, 3) };
+    let mut vocab = String::new();
+    for (i, t) in ["YQ==", "Yg==", "YWI="].iter().enumerate() {
+        if i > 0 {
+            vocab.push(',');
+        }
+        vocab.push_str(&format!(
+            r#"{{"rank":{},"token_bytes":"{}","token_str":null}}"#,
+            if odd(rng) { *rng.pick(&["4294967295", "4294967296", "18446744073709551615", "4294967281"]) } else { ["0", "1", "2"][i] },
+            if odd(rng) { "!!" } else { t }
+        ));
+    }
     format!(
-        r#"{{"config":{{"pattern":"{}","num_vocab_tokens":3,"default_vocab_size":{},"default_num_special_tokens":{},"version":"{}"}},"vocab":[{{"rank":0,"token_bytes":"YQ==","token_str":"a"}},{{"rank":{},"token_bytes":"{}","token_str":null}}]}}"#,
-        if variant % 4 == 0 { "((" } else { r"\\s+" },
+        r#"{{"config":{{"pattern":"{}","num_vocab_tokens":3,"default_vocab_size":{},"default_num_special_tokens":{},"version":"{}"}},"vocab":[{}]}}"#,
+        if odd(rng) { "((" } else { r"\\s+" },
         vs,
-        ns,
-        if variant % 5 == 0 { "v2" } else { "v3" },
-        *rng.pick(&[1u64, 4294967295, 4294967296, 18446744073709551615]),
-        if variant % 3 == 0 { "!!" } else { "Yg==" }
+        nspecial,
+        if variant % 9 == 8 { "v2" } else { "v3" },
+        vocab
     )
     .into_bytes()
 }
@@ -320,13 +397,11 @@ pub fn gen(rng: &mut Rng, thorough: bool, out: &mut Sink) {
             out.push(loadf_line(&mut iso, f, "boundary", &b));
         }
     }
-    // ---- mutations and truncations of the shipped files
-    let per_file = if thorough { 400 } else { 12 };
+    // ---- mutations and truncations of the shipped files (12 child processes in parallel)
+    let per_file: u64 = if thorough { 400 } else { 16 };
+    let seed_base = rng.next() % 1_000_000;
+    let mut jobs: Vec<(String, String, String)> = Vec::new(); // (fmt, name, payload)
     for (name, path) in shipped_models() {
-        let data = match std::fs::read(&path) {
-            Ok(d) => d,
-            Err(_) => continue,
-        };
         let fmt = if name.starts_with("sentencepiece") {
             "sentencepiece"
         } else if name.starts_with("tokenizers") {
@@ -338,23 +413,42 @@ pub fn gen(rng: &mut Rng, thorough: bool, out: &mut Sink) {
         } else {
             "auto"
         };
-        for k in 0..per_file {
-            let m = if k % 3 == 0 {
-                // prefix truncation classes: inside the header, early, middle, near the end
-                let cut = match k % 12 {
-                    0 => rng.below(16.min(data.len())),
-                    3 => rng.below(data.len() / 10 + 1),
-                    6 => data.len() / 2 + rng.below(64).min(data.len() / 2),
-                    _ => data.len() - 1 - rng.below(32.min(data.len() - 1)),
-                };
-                data[..cut].to_vec()
-            } else {
-                mutate(rng, &data)
-            };
-            out.push(loadf_line(&mut iso, if k % 2 == 0 { fmt } else { "auto" }, &name, &m));
+        for k in 1..=per_file {
+            let f = if k % 2 == 0 { fmt } else { "auto" };
+            jobs.push((f.to_string(), name.clone(), format!("file:{}:{}:{}", path.display(), seed_base, k)));
         }
         out.count("shipped_files");
     }
+    let nthreads = 12;
+    let jobs = std::sync::Arc::new(jobs);
+    let mut handles = Vec::new();
+    for t in 0..nthreads {
+        let jobs = jobs.clone();
+        handles.push(std::thread::spawn(move || {
+            let mut iso = Isolated::new();
+            let mut res = Vec::new();
+            let mut i = t;
+            while i < jobs.len() {
+                let (f, name, payload) = &jobs[i];
+                let a = iso.load_payload(f, payload);
+                res.push((i, format!("LOADF {} {} {} :: {}", f, name, payload, a)));
+                i += nthreads;
+            }
+            (res, iso.crashes)
+        }));
+    }
+    let mut all: Vec<(usize, String)> = Vec::new();
+    let mut crashes = 0;
+    for h in handles {
+        let (res, c) = h.join().expect("thread");
+        all.extend(res);
+        crashes += c;
+    }
+    all.sort();
+    for (_, l) in all {
+        out.push(l);
+    }
+    out.add("child_crashes_shipped", crashes);
     // ---- native files through the model: serialized generated definitions, mutated
     let ndefs = if thorough { 3000 } else { 200 };
     for k in 0..ndefs {
@@ -416,9 +510,8 @@ pub fn run_request(words: &[&str]) -> Option<(String, String)> {
             if payload.starts_with("big:") {
                 return Some((args.join(" "), "SKIPPED-BIG".into()));
             }
-            let bytes = unhex(payload);
             let mut iso = Isolated::new();
-            let a = iso.load(args.get(1)?, &bytes);
+            let a = iso.load_payload(args.get(1)?, payload);
             Some((args.join(" "), a))
         }
         _ => None,
